@@ -110,6 +110,7 @@ Proof.
   - discriminate.
   - destruct (nclocks nd); simpl in *; discriminate.
   - destruct (nclocks nd); simpl in *; discriminate.
+  - discriminate.
 Qed.
 
 Lemma relation_deps_inputs : forall nd o deps cks i,
@@ -120,6 +121,7 @@ Proof.
   - inversion Hr; subst. contradiction.
   - destruct (N.eqb o 2); inversion Hr; subst; [contradiction|].
     apply filter_In in Hi. destruct Hi as [Hi _]. apply in_seq in Hi. lia.
+  - inversion Hr; subst. contradiction.
 Qed.
 
 Lemma check_valid_base : forall ps nd ins,
@@ -212,7 +214,7 @@ Section Sound.
 
   Theorem no_crossing : forall v, ~ crossing_at n v.
   Proof.
-    intros v H. inversion H as [nd i j a b Hg Hb Hi Hj Hne | nd i j s Hg Hb Hij Hi Hj | nd c i s Hg Hb Hc Hi Hns | nd s Hg Hk Hi Hm].
+    intros v H. inversion H as [nd i j a b Hg Hb Hi Hj Hne | nd i j s Hg Hb Hij Hi Hj | nd c i s Hg Hb Hc Hi Hns | nd s Hg Hk Hi Hm | nd i s Hg Hk Hi Hm].
     - pose proof (node_ok_of _ _ Hg) as Hn. unfold node_ok in Hn. rewrite (check_valid_base _ _ _ Hb) in Hn.
       apply base_check_spec in Hn.
       destruct (infl_in_clocks _ _ _ Hi) as (x & Ex & Cx). destruct (infl_in_clocks _ _ _ Hj) as (y & Ey & Cy).
@@ -237,6 +239,29 @@ Section Sound.
       destruct s; try contradiction.
       destruct (nth_error (nclocks nd) 0) as [[ic|]|]; try discriminate.
       apply Nat.eqb_eq in Hn. apply Hm. unfold ps in *. congruence.
+    - pose proof (node_ok_of _ _ Hg) as Hn. unfold node_ok, check_valid in Hn. rewrite Hk in Hn.
+      destruct (infl_in_clocks _ _ _ Hi) as (x & Ex & Cx).
+      destruct (ext_check_true _ _ _ _ _ Hn Ex) as (c & Ec & Hp). rewrite Ec in Hm.
+      destruct x; simpl in Cx, Hp; try (destruct s; contradiction); try discriminate.
+      destruct s as [d|]; try contradiction.
+      destruct c as [ic|]; try discriminate.
+      apply Nat.eqb_eq in Hp. apply Hm. unfold ps in *. congruence.
+  Qed.
+
+  Theorem external_port_own_domain : forall v nd i q s,
+    get_node n v = Some nd -> nkind nd = KExt ->
+    nth_error (nins nd) i = Some (Some q) -> influences n s q ->
+    exists d ic, s = SrcClk d /\ nth_error (ninclk nd) i = Some (Some ic) /\ ps d = ps ic.
+  Proof.
+    intros v nd i q s Hg Hk Hq Hinf.
+    assert (Hin : infl_in n nd i s) by (exists q; auto).
+    destruct s as [d|].
+    - destruct (nth_error (ninclk nd) i) as [[ic|]|] eqn:E.
+      + destruct (Nat.eq_dec (ps d) (ps ic)) as [He|He]; [exists d, ic; auto|].
+        exfalso. apply (no_crossing v). apply (cr_ext n v nd i (SrcClk d) Hg Hk Hin). rewrite E. exact He.
+      + exfalso. apply (no_crossing v). apply (cr_ext n v nd i (SrcClk d) Hg Hk Hin). rewrite E. exact I.
+      + exfalso. apply (no_crossing v). apply (cr_ext n v nd i (SrcClk d) Hg Hk Hin). rewrite E. exact I.
+    - exfalso. apply (no_crossing v). apply (cr_ext n v nd i SrcUnk Hg Hk Hin). exact I.
   Qed.
 
   (* the property's wording, spelled out for the individual node classes *)
@@ -314,7 +339,18 @@ Section Complete.
       + destruct Hx as [->|(a & -> & Hne)].
         * eapply cr_own; eauto. apply (input_infl nd i SUnknown); auto; discriminate. simpl. auto.
         * eapply cr_own; eauto. apply (input_infl nd i (SClock a)); auto; discriminate. simpl. exact Hne.
-    - destruct (nkind nd) eqn:Hk; try discriminate.
+    - destruct (nkind nd) eqn:Hk; try discriminate; [|
+        (* external module *)
+        pose proof (wf_node_of _ _ Hwf Hnd) as Hw; unfold wf_node in Hw; rewrite Hk in Hw;
+        apply andb_true_iff in Hw; destruct Hw as [Hw _]; apply Nat.eqb_eq in Hw;
+        assert (El : length (input_clocks dom nd) = length (ninclk nd))
+          by (unfold input_clocks; rewrite map_length; symmetry; exact Hw);
+        destruct (ext_check_false _ _ _ E El) as (i & x & c & Hi & Hc & Hp);
+        assert (Hx : x <> SConst) by (intro; subst; discriminate);
+        pose proof (input_infl nd i x Hnd Hi Hx) as Hin;
+        apply (cr_ext n v nd i (src_of_scd x) Hg Hk Hin); rewrite Hc;
+        destruct x; simpl; auto; destruct c as [ic|]; auto;
+        simpl in Hp; apply Nat.eqb_neq; exact Hp ].
       unfold cdc_check in E.
       destruct (input_clocks dom nd) as [|x l] eqn:Ei.
       + pose proof (wf_node_of _ _ Hwf Hnd) as Hw. unfold wf_node in Hw. rewrite Hk in Hw.
@@ -401,6 +437,15 @@ Proof.
   - apply (clocked_node_own_domain n dom Hwf Hok Hfl).
   - apply (marker_input_own_domain n dom Hwf Hok Hfl).
 Qed.
+
+Theorem cdc_sound_external_thm : forall n dom,
+  wf n = true -> domains_ok n dom = true -> flagged n dom = [] ->
+  forall v nd i q s,
+    get_node n v = Some nd -> nkind nd = KExt ->
+    nth_error (nins nd) i = Some (Some q) -> influences n s q ->
+    exists d ic, s = SrcClk d /\ nth_error (ninclk nd) i = Some (Some ic)
+                 /\ pin_source n d = pin_source n ic.
+Proof. intros n dom Hwf Hok Hfl. apply (external_port_own_domain n dom Hwf Hok Hfl). Qed.
 
 (* contrapositive of soundness: a design with an unmarked crossing is rejected *)
 Theorem crossing_rejected_thm : forall n dom,
